@@ -1,5 +1,6 @@
 import Pixman.Model.Fetch
 import Pixman.Model.Extent
+import Pixman.Model.Simd
 /-
   C08 — the specialised fetchers and whole-operation loops that stand in for the reference fetchers
   of pixman-bits-image.c (Model/Fetch.lean), modelled literally as far as the *coordinates, weights
@@ -468,5 +469,64 @@ def bilinearVertical (var : NearestVariant) (H vy : Int) : Int × Int × Int × 
     (y1, y2, w1, w2)
   | .normal => (repeatCoord .normal y1 H, repeatCoord .normal y2 H, w1, w2)
   | .cover => (y1, y2, w1, w2)
+
+/-! ### (e) FAST_BILINEAR_MAINLOOP_INT as a whole (OP_SRC, no mask, 8888 -> 8888, SSE2 scanline function) -/
+
+/-- the taps one call of the scanline function takes from the segments of the NORMAL split (`Model/Extent.normalStep`):
+    a wrap segment reads the two-pixel buffer `{src[src_width-1], src[0]}`, a plain segment the (extended) row -/
+def segTaps (srcW : Int) (row : Int → Nat) (ux : Int) : Seg → List HTap
+  | .plain vx n => bilinearScanlineTaps row ux n.toNat vx
+  | .wrap f n => bilinearScanlineTaps (buf2 (row (srcW - 1)) (row 0)) ux n.toNat f
+
+/-- `src_width` of the NORMAL variant: the image width, or for images narrower than REPEAT_NORMAL_MIN_WIDTH the
+    width of the replicated line (`while (src_width < 64 && src_width <= max_x) src_width += width`) -/
+def extWidthLoop (W maxX : Int) : Nat → Int → Int
+  | 0, sw => sw
+  | fuel + 1, sw => if sw < 64 ∧ sw ≤ maxX then extWidthLoop W maxX fuel (sw + W) else sw
+def extWidth (W maxX : Int) : Int := if W < 64 then extWidthLoop W maxX 64 0 else W
+
+/-- the destination pixels of one scanline-function call sequence: `BILINEAR_INTERPOLATE_ONE_PIXEL` on the
+    tap pairs of the top and bottom row (both rows are walked with the same `vx`) -/
+def bilinearPixels (top bot : List HTap) (wt wb : Int) : List Nat :=
+  List.zipWith (fun t u => Pixman.Model.Simd.Sse2.bilinearPixel t.left t.right u.left u.right wt.toNat wb.toNat
+    (t.vx % 65536).toNat) top bot
+
+/-- the horizontal taps of one destination row for the source row `row` -/
+def bilinearRowTaps (var : NearestVariant) (W : Int) (row : Int → Nat) (vx ux : Int) (width : Nat)
+    (z : Int × Int × Int × Int × Int) (srcW : Int) : List HTap :=
+  match var with
+  | .cover => bilinearScanlineTaps row ux width vx
+  | .pad => bilinearPadRowTaps W row vx ux (z.1 + z.2.1).toNat z.2.2.1.toNat (z.2.2.2.1 + z.2.2.2.2).toNat
+  | .none => bilinearNoneRowTaps W row vx ux z.1.toNat z.2.1.toNat z.2.2.1.toNat z.2.2.2.1.toNat z.2.2.2.2.toNat
+  | .normal => (normalLoop srcW ux width vx width).flatMap (segTaps srcW (fun x => row (x % W)) ux)
+
+def bilinearRows (var : NearestVariant) (b : Bits) (vx ux uy : Int) (width : Nat)
+    (z : Int × Int × Int × Int × Int) (srcW : Int) : Nat → Int → List (List Nat)
+  | 0, _ => []
+  | n + 1, vy =>
+    let v := bilinearVertical var b.height vy
+    let top := bilinearRowTaps var b.width (fun x => b.fetch x v.1) vx ux width z srcW
+    let bot := bilinearRowTaps var b.width (fun x => b.fetch x v.2.1) vx ux width z srcW
+    bilinearPixels top bot v.2.2.1 v.2.2.2 :: bilinearRows var b vx ux uy width z srcW n (wrapS32 (vy + uy))
+
+/-- `fast_composite_scaled_bilinear_sse2_8888_8888_<variant>_SRC` -/
+def fastBilinearScaled (var : NearestVariant) (b : Bits) (t : Transform) (srcX srcY : Int) (width height : Nat) :
+    Option (List (List Nat)) :=
+  match transformPoint3d t (pixelCentre srcX srcY) with
+  | some (true, p) =>
+    let ux := t.m00
+    let uy := t.m11
+    let vx0 := wrapS32 (p.x - 32768)
+    let vy := wrapS32 (p.y - 32768)
+    let z := if var = .pad ∨ var = .none then bilinearPadBounds b.width vx0 ux width else (0, 0, width, 0, 0)
+    -- v.vector[0] += left_pad * unit_x  (PAD: transition zones merged into the pads first)
+    let vx := if var = .pad then wrapS32 (vx0 + (z.1 + z.2.1) * ux)
+              else if var = .none then wrapS32 (vx0 + z.1 * ux) else vx0
+    let srcW := if var = .normal then
+        let vr := repeatCoord .normal vx0 (intToFixed b.width)
+        extWidth b.width (fixedToInt (vr + ((width : Int) - 1) * ux) + 1)
+      else b.width
+    some (bilinearRows var b vx ux uy width z srcW height vy)
+  | _ => none
 
 end Pixman.Model.FetchFast
